@@ -4,7 +4,7 @@ configurations built with these classes must equal those built with the original
 from pathlib import Path
 from typing import List, Optional
 
-from experimaestro import Annotated, Meta, Param, pathgenerator
+from experimaestro import Annotated, Meta, Option, Param, default, help, pathgenerator
 
 from . import zoo
 from .zoo import Color, Shade  # noqa: F401  (same enum classes: the enum's module is part of the signature)
@@ -23,12 +23,16 @@ def _extend(base):
             "zz_o": Param[Optional[int]],
             "zz_l": Param[List[int]],
             "zz_g": Annotated[Path, pathgenerator("zz.txt")],
+            # ignored parameters declared together with a second annotation (documented forms)
+            "zz_am": Annotated[Meta[int], default(3)],
+            "zz_ao": Annotated[Option[str], help("an option with a help text")],
         },
         "aa_first": "q",
         "zz_d": 5,
         "zz_f": 0.25,
         "zz_m": "x",
         "zz_l": [],
+        "zz_ao": "o",
     }
     return type(base.__name__, (base,), ns)
 
@@ -45,7 +49,10 @@ Node = _extend(zoo.Node)
 Node.__annotations__["dflt"] = Param[Leaf]
 Node.dflt = Leaf(i=7)
 Rec = _extend(zoo.Rec)
+GenLeaf = _extend(zoo.GenLeaf)
 Gen = _extend(zoo.Gen)
+Gen.__annotations__["dsub"] = Param[GenLeaf]
+Gen.dsub = GenLeaf()
 Artifact = _extend(zoo.Artifact)
 Holder = _extend(zoo.Holder)
 TaskBase = _extend(zoo.TaskBase)
